@@ -188,6 +188,9 @@ func kindAllowed(pf PropFunc, kind string) bool {
 // verifyFunctions generates and discharges the obligations of the listed functions.
 func verifyFunctions(P *Program, funcs []PropFunc, solver *Solver, coverSolver *Solver, dumpDir string) (results []oblResult, reports []fnReport, covers []oblResult, genErrs []string, assumptions map[string]bool) {
 	assumptions = map[string]bool{}
+	for _, b := range P.unknownContractKeys() {
+		genErrs = append(genErrs, "contract names something that does not exist: "+b)
+	}
 	type job struct {
 		fn    string
 		o     Oblig
